@@ -29,6 +29,9 @@ type mark struct {
 }
 
 func (m mark) String() string {
+	if m.attr == -2 {
+		return fmt.Sprintf("%s-text#%d", m.kind, m.elem)
+	}
 	if m.attr < 0 {
 		return fmt.Sprintf("%s-elem#%d", m.kind, m.elem)
 	}
@@ -55,6 +58,14 @@ func singles(root *idp.Node) (out []mark, names map[int]string) {
 				continue
 			}
 			out = append(out, mark{me, j, "delete"}, mark{me, j, "empty"})
+			for v := range hostileValues {
+				out = append(out, mark{me, j, fmt.Sprintf("set:%d", v)})
+			}
+		}
+		if len(n.Children) == 0 {
+			for v := range hostileValues {
+				out = append(out, mark{me, -2, fmt.Sprintf("set:%d", v)}) // -2: the element's text
+			}
 		}
 		for _, c := range n.Children {
 			walk(c, false)
@@ -114,7 +125,13 @@ func (s *serializer) elem(n *idp.Node, isRoot bool) {
 			continue
 		case "empty":
 			fmt.Fprintf(&s.sb, ` %s=""`, s.qn(a.Name.Space, a.Name.Local))
+		case "":
+			fmt.Fprintf(&s.sb, ` %s="%s"`, s.qn(a.Name.Space, a.Name.Local), idp.EscAttr(a.Value))
 		default:
+			if v, ok := hostileOf(s.marks[[2]int{me, j}]); ok {
+				fmt.Fprintf(&s.sb, ` %s="%s"`, s.qn(a.Name.Space, a.Name.Local), idp.EscAttr(v))
+				continue
+			}
 			fmt.Fprintf(&s.sb, ` %s="%s"`, s.qn(a.Name.Space, a.Name.Local), idp.EscAttr(a.Value))
 		}
 	}
@@ -126,7 +143,11 @@ func (s *serializer) elem(n *idp.Node, isRoot bool) {
 	} else {
 		s.sb.WriteString(">")
 		if len(n.Children) == 0 {
-			s.sb.WriteString(idp.EscAttr(n.Text))
+			if v, ok := hostileOf(s.marks[[2]int{me, -2}]); ok {
+				s.sb.WriteString(idp.EscAttr(v))
+			} else {
+				s.sb.WriteString(idp.EscAttr(n.Text))
+			}
 		}
 		for _, c := range n.Children {
 			s.elem(c, false)
@@ -170,6 +191,18 @@ func Serialize(root *idp.Node, ms ...mark) string {
 	}
 	s.elem(root, true)
 	return s.sb.String()
+}
+
+// hostileValues replace one attribute value or one element text at a time: things a handler may parse, index, split or
+// format without expecting them (unparsable URLs, percent escapes, huge numbers, blanks, very long, format verbs)
+var hostileValues = []string{"https://[::1/SSO", "https://idp.example/SSO%zz", "://host/x", " ", "%s%d%v%!", "-1", "99999999999999999999", "a b\tc", strings.Repeat("A", 5000)}
+
+func hostileOf(kind string) (string, bool) {
+	var i int
+	if n, _ := fmt.Sscanf(kind, "set:%d", &i); n == 1 && i >= 0 && i < len(hostileValues) {
+		return hostileValues[i], true
+	}
+	return "", false
 }
 
 // ---------- base documents ----------
@@ -344,6 +377,9 @@ func Run(dir, tier string, seed int64) error {
 			for j := i + 1; j < len(ss); j++ {
 				if ss[i].elem == ss[j].elem && ss[i].attr == ss[j].attr {
 					continue
+				}
+				if strings.HasPrefix(ss[i].kind, "set:") || strings.HasPrefix(ss[j].kind, "set:") {
+					continue // value replacements are applied singly
 				}
 				pairs = append(pairs, [2]mark{ss[i], ss[j]})
 			}
@@ -576,7 +612,7 @@ func Run(dir, tier string, seed int64) error {
 		}
 	}
 
-	rule := "every deletion / duplication / emptying of each element and every deletion / emptying of each attribute of a full AuthnRequest (unsigned and enveloped-signed; POST and Redirect; signing required and not), LogoutRequest (POST and Redirect), SOAP AttributeQuery (with and without ds:Signature) and SP metadata document (10 certificate variants: RSA, EC, not base64, not DER, empty, blank, blank lines, PEM armour only, truncated, wrapped), applied singly and in pairs (quick: all singles and a sample of pairs per document; thorough: all pairs), plus byte-level mutations of each; every SigAlg URI (and none / junk) x {RSA, EC, Ed25519, undecodable, no} registered certificate x 12 signature values (junk, empty, undecodable, RSA-sized, r||s-sized, well-formed and degenerate DER (r, s) sequences) x signing required or not; every route x 6 methods x 8 parameter shapes; every storage fault (operation x kind x 1st/2nd call x metadata signing) on every endpoint. A recovered panic is a failure. The SSO requests additionally go through the Coq model (whose Panicked outcome is proved unreachable) and must agree with it. distinct = (class, status/outcome)."
+	rule := "every deletion / duplication / emptying of each element, every deletion / emptying of each attribute and the replacement of each attribute value and each element text by each of 9 hostile values (unparsable URLs, broken percent escapes, blanks, format verbs, out-of-range numbers, 5 kB) in a full AuthnRequest (unsigned and enveloped-signed; POST and Redirect; signing required and not), LogoutRequest (POST and Redirect), SOAP AttributeQuery (with and without ds:Signature) and SP metadata document (10 certificate variants: RSA, EC, not base64, not DER, empty, blank, blank lines, PEM armour only, truncated, wrapped), applied singly and in pairs (quick: all singles and a sample of pairs per document; thorough: all pairs), plus byte-level mutations of each; every SigAlg URI (and none / junk) x {RSA, EC, Ed25519, undecodable, no} registered certificate x 12 signature values (junk, empty, undecodable, RSA-sized, r||s-sized, well-formed and degenerate DER (r, s) sequences) x signing required or not; every route x 6 methods x 8 parameter shapes; every storage fault (operation x kind x 1st/2nd call x metadata signing) on every endpoint. A recovered panic is a failure. The SSO requests additionally go through the Coq model (whose Panicked outcome is proved unreachable) and must agree with it. distinct = (class, status/outcome)."
 	return sso.RunWith("C09", dir, tier, seed, scenarios, rule, extra, oracle)
 }
 
